@@ -351,6 +351,8 @@ package raft
 
 //@ func operationManager.notifyLostLeaderShip
 //@   flags inline
+//@   loop range r.pendingReadOnly invariant [answered-mono] forall c int :: old(answered[c]) ==> answered[c]
+//@   loop range r.pendingReplicated invariant [answered-mono] forall c int :: old(answered[c]) ==> answered[c]
 
 //@ spec singleMember(r) = len(r.configuration.Members) == 1 && r.configuration.IsVoter[r.id]
 
@@ -388,7 +390,7 @@ package raft
 //@   ensures [noop] Llast == old(Llast) + 1 && Lterm[Llast] == r.currentTerm && Ltyp[Llast] == NoOpEntry && forall i int :: i <= old(Llast) ==> Lterm[i] == old(Lterm[i]) && Ltyp[i] == old(Ltyp[i]) && Ldata[i] == old(Ldata[i])
 //@   ensures [reset] forall fid string :: fid in r.followers ==> r.followers[fid].matchIndex == 0 && r.followers[fid].nextIndex <= Llast + 1
 //@   ensures [I11] r.operationManager != nil && r.operationManager.leaderLease != nil
-//@   ensures [lease-fresh] r.operationManager.leaderLease.expiration <= now && now >= old(now)
+//@   ensures [lease-fresh] now >= old(now) && (!old(singleMember(r)) ==> r.operationManager.leaderLease.expiration <= now)
 //@   ensures [snapshot-reset] r.snapshot == nil
 //@   ensures [answered-mono] forall c int :: old(answered[c]) ==> answered[c]
 //@   loop range r.followers invariant [reset] Llast == old(Llast) && forall fid string :: fid in visited ==> r.followers[fid].matchIndex == 0 && r.followers[fid].nextIndex <= Llast + 1
